@@ -18,6 +18,9 @@ CELLS = {
     '$ext': 'Seq(int)',      # external actions (gdb.execute etc.), coded per contract
     '$ext_text': 'Seq(str)',
     '$epoch': 'int',
+    '$probe': 'Opt(List(Obj("core.wl.message.Message")))',   # ghost parameter: an arbitrary list object (separation arguments)
+    '$controller': 'Obj("frontends.tui.controller.Controller", True)',       # wiring: the controller registered on the connection list / connections
+    '$ui_state': 'Obj("core.persistent_ui_state.PersistentUIState", True)',  # wiring: the state object registered on the controller
 }
 for k, v in CELLS.items():
     contracts.GLOBALS[k] = v
@@ -64,7 +67,7 @@ def retag_last(world, heap, kind, msg):
     append(world, heap, '$shown_at', mk_int(n - 1))
 
 
-ACCESSORS = {'shown': '$shown', 'shown_at': '$shown_at', 'out_text': '$out_text', 'out_stream': '$out_stream', 'out_kind': '$out_kind', 'out_msg': '$out_msg',
+ACCESSORS = {'probe': '$probe', 'controller': '$controller', 'ui_state': '$ui_state', 'shown': '$shown', 'shown_at': '$shown_at', 'out_text': '$out_text', 'out_stream': '$out_stream', 'out_kind': '$out_kind', 'out_msg': '$out_msg',
              'ui_trace': '$ui', 'ext_trace': '$ext', 'ext_text': '$ext_text'}
 
 
